@@ -288,7 +288,7 @@ func runProperty(id string, def propDef, repo, verif, tier string, seed int64, n
 // the vocabulary accepted and printed, rating, effects and allocation rules.
 // A failed layout premise never hides their verdicts.
 func layoutIndependent(rule string) bool {
-	for _, p := range []string{"R01.", "R09.", "R13.", "R14.", "R15.", "R17.", "R18.", "R06.cut", "R06.fresh", "R06.same", "R02.header", "R02.order", "R07.guard"} {
+	for _, p := range []string{"R01.", "R09.", "R13.", "R14.", "R15.", "R17.", "R18.", "R06.cut", "R06.fresh", "R06.same", "R02.header", "R02.order", "R02.accept", "R08.accept", "R07.guard"} {
 		if strings.HasPrefix(rule, p) {
 			return true
 		}
